@@ -229,8 +229,8 @@ fn run_errors(ctx: &mut Ctx) {
             stats.nontrivial(&json!([pt_name(s), pt_name(d)]));
             let int8_16 = |p: PixelType| matches!(pt_kind(p), CompKind::U8 | CompKind::U16);
             let compatible = int8_16(s) && int8_16(d) && pt_nc(s) == pt_nc(d);
-            for (dw, dh) in [(3u32, 2u32), (2, 3), (3, 3)] {
-                let src = Image::new(3, 2, s);
+            for (sw, sh, dw, dh) in [(3u32, 2u32, 3u32, 2u32), (3, 2, 2, 3), (3, 2, 3, 3), (0, 3, 3, 3), (3, 3, 3, 0), (0, 0, 0, 0), (0, 3, 0, 3), (0, 3, 3, 0), (3, 0, 3, 0), (0, 2, 0, 3)] {
+                let src = Image::new(sw, sh, s);
                 let mut dst = Image::new(dw, dh, d);
                 for b in dst.buffer_mut().iter_mut() {
                     *b = 0xA5;
@@ -238,9 +238,10 @@ fn run_errors(ctx: &mut Ctx) {
                 let before = dst.buffer().to_vec();
                 let r = mp.forward_map(&src, &mut dst);
                 stats.count("error_path_calls", 1);
-                let should_ok = compatible && (dw, dh) == (3, 2);
+                // empty images are no exception: mismatched sizes or component counts are rejected
+                let should_ok = compatible && (dw, dh) == (sw, sh);
                 if r.is_ok() != should_ok {
-                    viols.push(Viol::new("wrong_acceptance", format!("{} 3x2 -> {} {}x{}: {:?}", pt_name(s), pt_name(d), dw, dh, r)).sig(json!({"clause": "errors"})));
+                    viols.push(Viol::new("wrong_acceptance", format!("{} {}x{} -> {} {}x{}: {:?}", pt_name(s), sw, sh, pt_name(d), dw, dh, r)).sig(json!({"clause": "errors"})));
                 }
                 if r.is_err() && dst.buffer() != &before[..] {
                     viols.push(Viol::new("destination_touched_by_failed_call", format!("{} -> {} {}x{}", pt_name(s), pt_name(d), dw, dh)).sig(json!({"clause": "errors"})));
